@@ -23,6 +23,9 @@ void
 BitArrayT<NC_>::set() noexcept {
 	for (uint8_t& unit : _storage)
 		unit = UINT8_MAX;
+
+	// keep the padding bits of the last unit clear, empty() looks at whole units
+	_storage[UNIT_COUNT - 1] &= static_cast<uint8_t>(UINT8_MAX >> (UNIT_COUNT * 8 - CAPACITY));
 }
 
 // - - - - - - - - - - - - - - - - - - - - - - - - - - - - - - - - - - - - - - -
